@@ -150,6 +150,37 @@ def active_bound_case(method, weight):
     return out
 
 
+def fixed_outside_case(method, weight, above):
+    """a parameter marked fixed whose value lies OUTSIDE its own limits (reachable: set_values does not look at the limits): the fit
+    is refused (FittingError / ValueError) or it keeps the fixed value exactly — it is never moved onto a bound"""
+    import numpy as np
+    import pyimpspec
+    from pyimpspec import parse_cdc, DataSet
+    f = np.logspace(5, -1, 31)
+    Z = parse_cdc("R{R=100}(R{R=200}C{C=1e-5})").get_impedances(f)
+    start = parse_cdc("R{R=100}(R{R=150}C{C=2e-5})")
+    r0 = start.get_elements(recursive=True)[0]
+    if above:
+        r0.set_upper_limits(R=50.0)
+        r0.set_values(R=100.0)
+    else:
+        r0.set_lower_limits(R=150.0)
+        r0.set_values(R=100.0)
+    r0.set_fixed(R=True)
+    try:
+        fit = pyimpspec.fit_circuit(start, DataSet(f, Z), method=method, weight=weight, max_nfev=200, num_procs=1)
+    except Exception as e:  # noqa
+        return [] if type(e).__name__ in ("FittingError", "ValueError") else ["fit_circuit raised %s" % type(e).__name__]
+    el = fit.circuit.get_elements(recursive=True)[0]
+    out = []
+    if el.get_value("R") != 100.0:
+        out.append("fixed R_0.R (value 100 outside its limits [%r, %r]) changed to %r" % (el.get_lower_limit("R"), el.get_upper_limit("R"), el.get_value("R")))
+    name = fit.circuit.get_element_name(el)
+    if name in fit.parameters and fit.parameters[name]["R"].value != el.get_value("R"):
+        out.append("table reports %r for the fixed parameter, the circuit holds %r" % (fit.parameters[name]["R"].value, el.get_value("R")))
+    return out
+
+
 def shard_text(cases):
     items = []
     for i, (clit, var_names, params, table) in cases:
@@ -200,6 +231,11 @@ def run(rep, tier, seed, tr_errors):
         rep.evaluations += 1
         if pr_:
             problems.append(("R(RC) with default limits on data with a negative series resistance", m_, w_, pr_[:4]))
+    for m_, w_, ab_ in (("least_squares", "boukamp", True), ("leastsq", "modulus", False), ("auto", "auto", True)) + ((("nelder", "unity", False), ("powell", "proportional", True)) if tier != "quick" else ()):
+        pr_ = fixed_outside_case(m_, w_, ab_)
+        rep.evaluations += 1
+        if pr_:
+            problems.append(("R(RC) with a fixed series resistance outside its own limits", m_, w_, pr_[:4]))
     for i, (fam, m, w, ff, con) in enumerate(plan):
         res = run_case(rng, fam, m, w, ff, con)
         rep.evaluations += 1
